@@ -31,5 +31,11 @@ int memcmp(const void *a, const void *b, size_t n) {
   for (size_t i = 0; i < n; i++) if (aa[i] != bb[i]) return aa[i] < bb[i] ? -1 : 1;
   return 0;
 }
+void *memchr(const void *s, int c, size_t n) {
+  __CPROVER_assert(__CPROVER_r_ok(s, n), "memchr operand readable for n bytes");
+  const unsigned char *ss = s;
+  for (size_t i = 0; i < n; i++) if (ss[i] == (unsigned char)c) return (void *)(ss + i);
+  return (void *)0;
+}
 #endif
 #endif
